@@ -241,3 +241,11 @@ read_tuple!(A, B, C, D, E);
 read_tuple!(A, B, C, D, E, F);
 read_tuple!(A, B, C, D, E, F, G);
 read_tuple!(A, B, C, D, E, F, G, H);
+
+#[cfg(feature = "verif")]
+impl Reader<'_> {
+    /// Size of the internal buffer (verification harness only)
+    pub fn verif_buf_size() -> usize {
+        Reader::BUF_SIZE
+    }
+}
